@@ -239,7 +239,7 @@ pub fn c05_tcp_smoke(c: &WireCase, st: &mut Stats) -> Result<(), Viol> {
         if line.len() > 1900 || desc.starts_with("QUIT") || desc.starts_with("DIE") || desc.starts_with("SQUIT") {
             continue;
         }
-        log.push(format!("f > {}", if line.len() > 160 { format!("{}...", &line[..160].chars().collect::<String>()) } else { line.clone() }));
+        log.push(format!("f > {}", if line.len() > 160 { format!("{}...", crate::checks::c05::clip(&line, 160)) } else { line.clone() }));
         if w.ask(f, &line, &format!("z{}", i)).is_none() {
             st.count("inconclusive_realtime_wait");
             return Ok(());
